@@ -12,7 +12,6 @@ from vlib import strings as S
 
 ID = "C20"
 PROP_FILE = "Props/C20.v"
-THEOREMS = ["C20_rejects", "C20_no_panic", "C20_dup_variant_attr_iff", "C20_nonvacuous"]
 RULE = ("items: every rejection rule of the property (non-enum item, data-carrying variant, lifetime parameter, repeated single-use "
         "attribute at enum / variant / field level within one attribute and across attributes, two default variants, default / "
         "transparent on a variant without exactly one field, placeholders and bracket errors, unknown serialize_all style, only one "
